@@ -660,7 +660,7 @@ def judge(run, cases, workdir, shards, name="trace", replayed=None):
 
 
 WEB_REQUIRES = {
-    "web_home": "GET / lists exactly the addresses that have an entry in the table (each once)",
+    "web_home": "GET / (documented as the list of visible identifiers) lists only addresses that have an entry in the table, each once",
     "web_all": "GET /all shows one state vector per address seen",
     "track_known": "GET /track answers null exactly for addresses that were never seen",
     "track_foreign": "GET /track?icao24=x returns only records whose JSON shows address x",
